@@ -40,6 +40,26 @@ class ViewModule:
                              'struct Shared:\n  0 [+1]  UInt  count\n  1 [+1]  Shade  shade\n  if count > 1:\n    2 [+2]  UInt  more\n'
                              % r.choice(["LittleEndian", "BigEndian"]))
             L.insert(0, 'import "inc.emb" as inc')
+        # a bits type used INSIDE another bits block at a non-zero bit offset (OffsetBitBlock of an OffsetBitBlock)
+        self.has_nib = self.f("nested_bits", 0.6)
+        if self.has_nib:
+            L.append("bits Nib:")
+            L.append("  0 [+2]  UInt  lo")
+            L.append("  2 [+3]  UInt  mid")
+            L.append("  5 [+1]  Flag  fl")
+            if r.random() < 0.5:
+                L.append("  if fl:")
+                L.append("    3 [+2]  UInt  mid_hi")
+        # a one-byte aggregate with uncovered bits, used as an array element (element-wise, logical comparison)
+        self.has_cell = self.f("cell_array", 0.6)
+        if self.has_cell:
+            L.append("struct Cell:")
+            L.append("  0 [+1]  bits:")
+            L.append("    0 [+3]  UInt  ca")
+            L.append("    4 [+1]  Flag  cf")
+            if r.random() < 0.5:
+                L.append("  if cf:")
+                L.append("    0 [+1]  UInt  whole")
         self.has_inner = self.f("nested", 0.5)
         self.has_param = self.f("param", 0.35)
         if self.has_inner:
@@ -143,6 +163,10 @@ class ViewModule:
             L.append("    4 [+2]  Kind  kind")
             if sz > 1:
                 L.append("    8 [+%d]  Int  sint" % r.choice([3, 5, 8]))
+            if sz > 1 and self.has_nib:
+                L.append("    %d [+6]  Nib  nib" % r.choice([9, 10]))
+            if sz == 4 and r.random() < 0.7:
+                L.append("    %d [+6]  UInt:2[3]  duo" % r.choice([17, 20, 26]))
             ints.append("small")
             off += sz
             if r.random() < 0.5:
@@ -153,6 +177,9 @@ class ViewModule:
                 L.append("  if %s:" % r.choice(["kind == Kind.TWO", "Kind.TWO == kind", "kind == Kind.ONE"]))
                 L.append("    %d [+2]  UInt  if_two" % off)
                 off += 2
+        if self.has_cell:
+            L.append("  %d [+3]  Cell[3]  cells" % off)
+            off += 3
         # dynamic array
         if self.f("array", 0.5):
             cnt = r.choice(ints)
